@@ -59,6 +59,9 @@ func checkC12(ctx *Ctx, r *Report) {
 	c12NoSiblingsOfRef(ctx, r, p)
 	c12FourthRound(ctx, r, p)
 	c12FifthRound(ctx, r, p)
+	c12SixthRound(ctx, r)
+	c08UnionReuseComparesBranches(ctx, r) // two unions that differ by the value type of a map branch share one Go wrapper
+	c01GoNamedDateTimeIsAlias(ctx, r)     // a named date-time encodes as {}
 	c12ConstructorCollections(ctx, r)
 	c12NumericKeywordsRead(ctx, r)
 	c12CollectionDefaultsRead(ctx, r)
@@ -1863,4 +1866,76 @@ func c12FifthRound(ctx *Ctx, r *Report, p *packages.Package) {
 	}
 	r.Count("hunted clauses of the emitted documents (5th round)", n)
 	r.Floor("hunted clauses of the emitted documents (5th round)", 5)
+}
+
+// c12SixthRound — fifth hunt:
+//   - the wire name of a field is written in a Go struct tag, which encoding/json reads its own way (the text before the
+//     first comma; a name with a quote or a backslash is ignored; `-` means "not encoded"): the Go types jenny checks
+//     the names of the fields against what a tag can carry, and fails otherwise — `"size,unit"` was encoded under `size`,
+//     `"owner's"` under `OwnerS`, `"-"` not at all, against an emitted schema that keeps the names;
+//   - (findings, known constructs) two unions that differ by the value type of a map branch share one Go wrapper; a
+//     named date-time is a defined type without time.Time's JSON methods and encodes as `{}`.
+func c12SixthRound(ctx *Ctx, r *Report) {
+	fn := ctx.LookupMethod("internal/jennies/golang", "RawTypes", "generateSchema")
+	fd, p := ctx.DeclOf(fn)
+	if fd == nil {
+		r.Undecided("anchor lost: golang.RawTypes.generateSchema")
+		return
+	}
+	info := p.TypesInfo
+	checksTags := false
+	ast.Inspect(fd.Body, func(m ast.Node) bool {
+		is, ok := m.(*ast.IfStmt)
+		if !ok || !endsInExit(is.Body) {
+			return true
+		}
+		as, ok := is.Init.(*ast.AssignStmt)
+		if !ok || len(as.Rhs) != 1 {
+			return true
+		}
+		c, ok := ast.Unparen(as.Rhs[0]).(*ast.CallExpr)
+		if !ok {
+			return true
+		}
+		f := callee(info, c)
+		if f == nil || f.Pkg() != p.Types {
+			return true
+		}
+		// the callee (one level) tests field names against the characters of a tag: it mentions the comma-free set or
+		// calls a predicate that ranges over the runes of a name, and reads `.Fields`
+		hfd, _ := ctx.DeclOf(f)
+		if hfd == nil || hfd.Body == nil {
+			return true
+		}
+		readsFields, testsNames := false, false
+		ast.Inspect(hfd.Body, func(k ast.Node) bool {
+			switch x := k.(type) {
+			case *ast.SelectorExpr:
+				if x.Sel.Name == "Fields" {
+					readsFields = true
+				}
+			case *ast.CallExpr:
+				if pf := callee(info, x); pf != nil && pf.Pkg() == p.Types {
+					if pfd, _ := ctx.DeclOf(pf); pfd != nil && pfd.Body != nil {
+						ast.Inspect(pfd.Body, func(q ast.Node) bool {
+							if rs, ok := q.(*ast.RangeStmt); ok {
+								if b, ok := info.TypeOf(rs.X).Underlying().(*types.Basic); ok && b.Info()&types.IsString != 0 {
+									testsNames = true
+								}
+							}
+							return true
+						})
+					}
+				}
+			}
+			return true
+		})
+		if readsFields && testsNames {
+			checksTags = true
+		}
+		return true
+	})
+	r.Count("hunted clauses of the emitted documents (6th round)", 1)
+	r.Check(checksTags, "keywords/go-tag-names-checked", "golang.RawTypes.generateSchema writes field names into struct tags", fd.Pos(), "after a check of the names against what a tag can carry, with an error exit",
+		"the Go types jenny writes the name of a field into `json:\"…\"` as it is: `\"size,unit\"` is read by encoding/json as the name `size` with an option, `\"owner's\"` is ignored (the key becomes OwnerS), `\"-\"` means \"not encoded\" — every encoding of the type misses and adds properties for the emitted schema, which keeps the names and has additionalProperties: false")
 }
